@@ -17,6 +17,7 @@ LABELS_JSON_TYPES = ['{"n":1}', '{"n":true}', '{"n":1.0}', '{"n":0}', '{"n":fals
 BUCKETS = ["b0", "b1", "bü-2"]
 # ids that SQL LIKE would confuse (case twins, "_" as a wildcard) and that contain each other
 BUCKETS_LIKE = ["aw_w", "aw-w", "AW_W", "aw_w%"]
+BUCKETS_COLS = ["id", "name", "client"]  # bucket ids spelled like columns of the buckets table
 
 
 def mk_meta(rng, b, with_name=None):
@@ -59,7 +60,8 @@ class HistGen:
 
     def __init__(self, rng, nbuckets=2, grid=8):
         self.rng = rng
-        self.buckets = (BUCKETS_LIKE if rng.random() < 0.15 else BUCKETS)[:nbuckets]
+        r_b = rng.random()
+        self.buckets = (BUCKETS_LIKE if r_b < 0.15 else BUCKETS_COLS if r_b < 0.25 else BUCKETS)[:nbuckets]
         self.grid = grid
         r0 = rng.random()
         self.base = EPOCH_BASE if r0 < 0.12 else FUTURE_BASE if r0 < 0.18 else rng.choice(FAR_BASES) if r0 < 0.24 else T0
